@@ -253,7 +253,7 @@ PROPS.update({
         rule="multi-module models x panic placements (module x callback x occurrence, several victims) x stereotypes; distinct = distinct "
              "program hash; non-trivial = at least one module panicked and a healthy module kept working afterwards",
         fault_probes=["module_panicked"],
-        expected_probes=["module_panicked"],
+        expected_probes=["module_panicked", "joined_block_handler_fails_after_asking_for_a_restart"],
         assumptions=["for joined-task panics only non-abort, attribution and isolation are demanded (DESIGN section 8)", "sampled, not exhaustive"]),
     "C16": net_prop(
         technique=SIM_TECH + "; faults = message loss at every place the system can lose a message",
